@@ -7,6 +7,7 @@ returns) plus the path condition.  Nothing is executed concretely.
 from __future__ import annotations
 
 import ast
+import os
 from typing import Dict, List, Optional, Tuple
 
 from .model import AnalysisError, ClassInfo, Module, Repo
@@ -150,6 +151,8 @@ class Ctx:
         self.whole = 0  # >0 while inside an iteration that visits every element
         self.steps = 0
         self.max_steps = 400000
+        self.t0 = None              # wall-clock start of the analysis run with this context (set on the first statement)
+        self.max_seconds = float(os.environ.get("SA_MAX_SECONDS_PER_ANALYSIS", "120"))
         self.attr_kind_cache: Dict[Tuple[str, str], str] = {}
         self.init_cache: Dict[str, object] = {}
 
@@ -307,6 +310,13 @@ class Frame:
         self.ctx.steps += 1
         if self.ctx.steps > self.ctx.max_steps:
             raise AnalysisError(f"interpreter step budget exhausted in {self.fname} (path explosion)")
+        if self.ctx.steps & 255 == 1:
+            # a wall-clock bound as well: long paths make single steps slow, and a check that never ends is worse than one that gives up
+            import time as _time
+            if self.ctx.t0 is None:
+                self.ctx.t0 = _time.time()
+            elif _time.time() - self.ctx.t0 > self.ctx.max_seconds:
+                raise AnalysisError(f"interpreter time budget ({self.ctx.max_seconds:.0f} s) exhausted in {self.fname} (path explosion)")
         if isinstance(st, ast.Return):
             out = []
             for q, t in self.expr(st.value, p) if st.value is not None else [(p, Const(None))]:
@@ -2831,7 +2841,8 @@ class Frame:
                 fn._sa_self_recursive = self_rec
             except Exception:
                 pass
-        if not isinstance(fn, ast.Lambda) and plain and on_stack and (self_rec or akey in on_stack or len(on_stack) >= 3):
+        if not isinstance(fn, ast.Lambda) and on_stack and ((plain and (self_rec or akey in on_stack or len(on_stack) >= 3)) or (self_rec and len(on_stack) >= 1 and not plain
+                                                                                                                                        and getattr(fn, "name", "") not in XOPS)):
             # plain (non-node) recursion: do not unfold again
             args_ = tuple(v for v in bound.values() if isinstance(v, Term))
             self.ev(p, "call", text=fn.name + "<recursive>", args=args_, line=getattr(node, "lineno", 0))
